@@ -845,9 +845,31 @@ func errFields(c *core.Ctx) {
 		return
 	}
 	est := errType.Underlying().(*types.Struct)
+	// a field no function of the package mentions carries nothing (a field added for later use): the
+	// obligation is about what an Error can hold
+	touched := map[*types.Var]bool{}
+	for _, fd := range p.AllFuncDecls(p.Connect) {
+		ast.Inspect(fd.Body, func(n ast.Node) bool {
+			switch x := n.(type) {
+			case *ast.SelectorExpr:
+				if f := astx.FieldOf(info, x); f != nil {
+					touched[f] = true
+				}
+			case *ast.KeyValueExpr:
+				if id, ok := x.Key.(*ast.Ident); ok {
+					if f, ok := info.Uses[id].(*types.Var); ok && f.IsField() {
+						touched[f] = true
+					}
+				}
+			}
+			return true
+		})
+	}
 	var errFieldsList []*types.Var
 	for i := 0; i < est.NumFields(); i++ {
-		errFieldsList = append(errFieldsList, est.Field(i))
+		if touched[est.Field(i)] {
+			errFieldsList = append(errFieldsList, est.Field(i))
+		}
 	}
 	// accessors: methods of Error -> fields they read/store; constructors NewError/errorf store code+err
 	acc := map[*types.Func]fieldAccess{}
